@@ -11,7 +11,8 @@ class Unit:
                  kind="proof", tier="quick", bounds=None, defines=(), lib=("lib/libc_stubs.c",),
                  cbmc_flags=(), checks=None, pre_instrument=(), post_instrument=(), timeout=300,
                  min_obligations=5, small=(), native=None, functions=None, callees=None,
-                 assumptions=(), nobody_ok=(), malloc_may_fail=False, cost=10, contracts=None):
+                 assumptions=(), nobody_ok=(), malloc_may_fail=False, cost=10, contracts=None, plain=False):
+        self.plain = plain
         self.name, self.props, self.entry = name, list(props), entry
         self.spec, self.repo, self.enforce = list(spec), list(repo), enforce
         self.replace, self.loops, self.rec = list(replace), loops, rec
@@ -77,6 +78,20 @@ for fn, h in [("d_string_erase", "h_erase"), ("d_string_append", "h_append"), ("
       callees={"ensureStringBufferCanHold": "body", "strlen/memmove/memcpy/strncpy/strncat": "contract stub", "realloc/malloc": "CBMC built-in"},
       nobody_ok=["fprintf", "exit"],
       assumptions=[LIBC_ASSUME, NOFAIL])
+
+# Unit B: byte content, bounded capacity (real CBMC libc models, loops unwound)
+for fn, h in [("d_string_erase", "h_erase"), ("d_string_append", "h_append"), ("d_string_append_c", "h_append_c"),
+              ("d_string_append_c_array", "h_append_c_array"), ("d_string_prepend", "h_prepend"),
+              ("d_string_insert", "h_insert"), ("d_string_insert_c", "h_insert_c"),
+              ("d_string_insert_c_array", "h_insert_c_array"), ("d_string_copy_substring", "h_copy_substring")]:
+    for capb, tier in (((3, "quick"), (5, "thorough")) if fn == "d_string_insert_c_array" else ((4, "quick"), (7, "thorough"))):
+        U("ds_B%d_%s" % (capb, fn[9:]), ["C19"], h, ["C19/ds_A.c"], ["d_string.c"], plain=True, functions=[fn], lib=("lib/libc_models.c",),
+          defines=["-DUNIT_B", "-DCAPB=%d" % capb, "-DSTRB=%d" % (capb // 2)], kind="bounded", tier=tier,
+          bounds={"capacity<=": capb, "argument string length<": capb // 2, "unwind": capb + 2},
+          cbmc_flags=["--unwind", str(capb + 2), "--unwinding-assertions"],
+          native=_DS_NATIVE, min_obligations=20, nobody_ok=["fprintf", "exit"], timeout=600, cost=30,
+          callees={"ensureStringBufferCanHold": "body", "libc": "byte-loop reference models lib/libc_models.c (unwound)"},
+          assumptions=[NOFAIL])
 
 PROPS["C01"] = {
     "level": "proof",
